@@ -982,6 +982,12 @@ class AgentSchedulingComponent(rpu.AgentComponent):
                     task['partition'] = td['partition']
                     task['resources'] = {'cpu': td['ranks'] * td['cores_per_rank'],
                                          'gpu': td['ranks'] * td['gpus_per_rank']}
+
+                    # reflect the placement in the nodelist state (BUSY), like
+                    # for any other scheduled task (see `_try_allocation`)
+                    self._change_slot_states(task['slots'], rpc.BUSY)
+                    self._active_cnt += 1
+
                     self.advance(task, rps.AGENT_EXECUTING_PENDING,
                                  publish=True, push=True, fwd=True)
                     continue
